@@ -760,6 +760,25 @@ func Visible() {
 	Point(OpOther, nil)
 }
 
+// GlobalPoint is the scheduling point the rewriter inserts before every statement that touches
+// a package-level variable written after initialisation (see tools/cmd/vrewrite/globals.go):
+// plain shared memory becomes visible to the scheduler like a lock or an atomic.
+func GlobalPoint(name string) {
+	if !Active() || Killed() {
+		return
+	}
+	o := globalObjs[name]
+	if o == nil {
+		o = &Obj{}
+		globalObjs[name] = o
+	}
+	o.Fresh()
+	Point(OpOther, nil)
+	Touch(o, OpOther)
+}
+
+var globalObjs = map[string]*Obj{}
+
 // Quiet switches exploration off (true) or on (false) for the calling execution: while quiet,
 // every choice takes its default and is not recorded. Harnesses run their setup (node start,
 // connects) and, where order cannot matter, their final drain quietly, so that the explored
